@@ -11,9 +11,14 @@ def run(tier, seed, args):
         return v.finish()
     ps = progs.c06_programs(seed, tier)
     filecommon.run_programs(v, wd, exe, ps, "c06", focus=("C06",))
+    # last clause of the property on files the writer did not produce: whenever a blob extraction reports success it
+    # delivered exactly the descriptor's length (damaged, truncated and consistently enlarged descriptors: the mutated files of C08/C09)
+    import c08
+    c08.run_untrusted(v, wd, exe, seed, "quick" if tier == "quick" else "thorough", ("C06",))
     v.add(states=v.cov.get("trace_events", 0), transitions=v.cov.get("trace_events", 0),
           rule="one case = one writer program: blob lengths (every residue mod 4, around the page payload size) x start residues mod 1020 x images of all four representations with/without mask between point clouds; "
-               "TLC locates every blob through its descriptor with the independent decoder and compares bytes with the input and with what the reader returns",
+               "TLC locates every blob through its descriptor with the independent decoder and compares bytes with the input and with what the reader returns; "
+               "plus every blob extraction on the mutated files of C08/C09: Ok only with exactly the descriptor's length",
           evaluations=v.cov.get("programs", 0), distinct_nontrivial=v.cov.get("traces_validated_against_impl", 0))
     v.assumptions += ["TLC, E57Format, harness recording code, expat XML projection"]
     return v.finish()
